@@ -17,7 +17,7 @@ PID = "C04"
 HELPERS = {"Debug": ["debug"], "Default": ["default"], "PartialEq": ["partial_eq", "eq", "partial_ord", "ord"], "Hash": ["hash", "eq", "ord"], "Clone": [], "Copy": [],
            "PartialOrd": ["partial_ord", "ord"]}
 DERIVE = {}
-FORMS = ["pred", "pred..", "type", "type..", ".."]
+FORMS = ["pred", "pred..", "type", "type..", "..", "..pred", "pred..type"]  # `..` may stand anywhere in the list, predicates and types may be mixed
 
 
 def kinds_of(trait):
@@ -38,17 +38,22 @@ class Level:
     def text(self, trait):
         m = ", ".join("%s: Mk%d" % (p, self.marker) for p in self.params())
         t = ", ".join(self.params())
-        return {"pred": m, "pred..": m + ", ..", "type": t, "type..": t + ", ..", "..": "..", "empty": ""}[self.form]
+        ps = self.params()
+        mixed = ", ".join(["%s: Mk%d" % (ps[0], self.marker), ".."] + ps[1:] + (["%s: Mk%d" % (ps[0], self.marker)] if len(ps) == 1 else []))
+        return {"pred": m, "pred..": m + ", ..", "type": t, "type..": t + ", ..", "..": "..", "empty": "", "..pred": ".., " + m, "pred..type": mixed}[self.form]
 
     def preds(self, trait):
-        if self.form.startswith("pred"):
+        if self.form == "pred..type":
+            ps = self.params()
+            return ["%s: Mk%d" % (ps[0], self.marker)] + ["%s: %s" % (p, PATH[trait]) for p in ps[1:]]
+        if self.form.startswith("pred") or self.form == "..pred":
             return ["%s: Mk%d" % (p, self.marker) for p in self.params()]
         if self.form.startswith("type"):
             return ["%s: %s" % (p, PATH[trait]) for p in self.params()]
         return []
 
     def dots(self):
-        return self.form.endswith("..")
+        return ".." in self.form
 
 
 def attr_lines(trait, levels, place):
@@ -175,7 +180,7 @@ def programs(tier, rnd, start=0):
             add(trait, kind, [])
             # every place alone, in every form (thorough) / a seeded form (quick)
             for p in ps:
-                for f in (FORMS if tier == "thorough" else [rnd.choice(["pred", "type"]), rnd.choice(["pred..", "type..", ".."])]):
+                for f in (FORMS if tier == "thorough" else [rnd.choice(["pred", "type"]), rnd.choice(["pred..", "type..", ".."]), rnd.choice(["..pred", "pred..type"])]):
                     add(trait, kind, [(p, f)])
             # pairs: a higher place with and without `..` over a lower one
             pairs = list(itertools.combinations(ps, 2))
